@@ -476,7 +476,23 @@ class World:
                     present = False
                 self.count('dot_set.foreign_element_not_refused')
                 if not present:
-                    return ('ok', 'foreign-element-not-attached')
+                    # the pinned library treats the object as a *value*: it becomes the value of the existing child, or
+                    # of a child of class `cname` it creates itself; the shadow follows
+                    marker = ['element-object-as-value', new.name]
+                    if existing:
+                        existing[0].value = marker
+                    else:
+                        try:
+                            kids = parent.el.get_children(ordered=False)
+                        except Exception:
+                            kids = []
+                        known = {id(c.el) for c in parent.children}
+                        for k in kids:
+                            if id(k) not in known:
+                                n2 = self.new_node(cname, marker, {}, True, k)
+                                n2.parent = parent
+                                parent.children.append(n2)
+                    return ('ok', 'foreign-element-stored-as-value')
             if r[0] == 'ok':
                 if existing:
                     old = existing[0]
@@ -600,7 +616,9 @@ class World:
             text = r[1]
             self.last_text[tuple(op['p'])] = text
             self.text = text
-            return ('ok', hashlib.sha256(text.encode('utf-8', 'surrogatepass')).hexdigest()[:16])
+            # object addresses can reach the output (the pinned library stores an element object given as a value
+            # and prints its repr): scrub them, they differ from process to process
+            return ('ok', hashlib.sha256(_scrub(text).encode('utf-8', 'surrogatepass')).hexdigest()[:16])
         self.text = None
         return ('exc', r[1], 'to_string')
 
@@ -869,7 +887,7 @@ class World:
                 t = el.to_string(intelligent_choice=True)
             else:
                 t = el.to_string()
-            return ['text', t]
+            return ['text', _scrub(t)]
         except self.lib.children_required as e:
             return ['exc', type(e).__name__, self._required_names(el)]
         except BaseException as e:
@@ -968,6 +986,14 @@ class _Skip(Exception):
     pass
 
 
+import re as _re
+_ADDR = _re.compile(r'0x[0-9a-fA-F]{6,}')
+
+
+def _scrub(text):
+    return _ADDR.sub('0x?', text) if isinstance(text, str) and '0x' in text else text
+
+
 class Checker:
     def before(self, w, op):
         pass
@@ -997,7 +1023,7 @@ def flatten_names(x):
 def jsonable(v):
     if v is None or isinstance(v, (bool, int, float, str)):
         return v
-    return repr(v)
+    return _scrub(repr(v))
 
 
 _DEFAULT_VALUE = {}
